@@ -257,3 +257,30 @@ def run(ctx, rep) -> None:
     for k in sorted(book):
         rep.check(k in cleared, "C15.R6", f"re-arm clears {k}", f"written by other handlers per iteration; reset_stage_for_retry clears {sorted(cleared)}", "src/stabilize/handlers/jump_to_stage/reset.py", rs.lineno, disc=k)
     rep.floor("per-iteration bookkeeping keys", len(book), 3)
+    _shared_inherited_rule(ctx, rep)
+
+
+def _shared_inherited_rule(ctx, rep) -> None:
+    """A loop iteration must start from the CURRENT upstream values: the bookkeeping of inherited keys in `_plan_stage` (C16.R4) is
+    what lets a re-armed stage drop the previous iteration's inherited values. The rule is decided once, in sa/rules/c16.py; its
+    instances are reported here under C15.R7 as well, because breaking it leaves stale state in every iteration from the third on."""
+    from ..report import Report
+    from . import c16
+    rep.rule("C15.R7", "the inherited-keys bookkeeping of _plan_stage holds (instances of C16.R4 / the _plan_stage order rule of C16.R3): a re-armed stage takes every inherited key from the current ancestors, not from its own earlier planning")
+    child = Report("C16", rep.tier, rep.repo)
+    try:
+        c16.run(ctx, child)
+    except Exception as e:      # noqa: BLE001 - an analysis error of the shared rule is an analysis error here too
+        rep.error(f"C15.R7 (shared with C16): {type(e).__name__}: {e}")
+        return
+    for err in child.errors:
+        rep.error(f"C15.R7 (shared with C16): {err}")
+    n = 0
+    for inst in child.instances:
+        if inst.rule == "C16.R4" or (inst.rule == "C16.R3" and "_plan_stage" in inst.construct):
+            n += 1
+            if inst.ok:
+                rep.ok("C15.R7", inst.construct, inst.detail, inst.file, inst.line)
+            else:
+                rep.fail("C15.R7", inst.construct, inst.detail + " [loop iterations: the stage keeps an earlier iteration's inherited value]", inst.file, inst.line, disc=inst.key.split(":", 2)[-1] if inst.key.count(":") >= 2 else "")
+    rep.floor("inherited-key rule instances shared with C16", n, 3)
